@@ -852,14 +852,14 @@ func (c *c11) limitsNew(job string) {
 type editOp struct {
 	del  bool
 	k, v string
-	prop bool
+	prop int // 0: no properties, 1: p=x;q, 2: r=y (a different, shorter list: shared storage shows)
 }
 
 func editOps() []editOp {
 	var ops []editOp
 	for _, k := range []string{"a", "b", "c"} {
 		for _, v := range []string{"1", "2"} {
-			for _, p := range []bool{false, true} {
+			for p := 0; p < 3; p++ {
 				ops = append(ops, editOp{k: k, v: v, prop: p})
 			}
 		}
@@ -872,16 +872,22 @@ func (o editOp) String() string {
 	if o.del {
 		return "Delete(" + o.k + ")"
 	}
-	if o.prop {
+	switch o.prop {
+	case 1:
 		return "Set(" + o.k + "=" + o.v + ";p=x;q)"
+	case 2:
+		return "Set(" + o.k + "=" + o.v + ";r=y)"
 	}
 	return "Set(" + o.k + "=" + o.v + ")"
 }
 
 func (o editOp) member() rmem {
 	m := rmem{k: o.k, v: o.v}
-	if o.prop {
+	switch o.prop {
+	case 1:
 		m.props = []rprop{{"p", "x", true}, {"q", "", false}}
+	case 2:
+		m.props = []rprop{{"r", "y", true}}
 	}
 	return m
 }
